@@ -72,17 +72,77 @@ pub struct WorldExec {
     hr_os_tid: Option<u64>,
 }
 
-/// the assets a script refers to: tokens `+T:id =T:id ?T:id !T:id ~T:id &T:id ^T:id`
+/// the assets a script refers to: tokens `+T:id =T:id ?T:id !T:id ~T:id &T:id ^T:id @T:id:n`
 pub fn script_refs(text: Option<&[u8]>) -> std::collections::BTreeSet<(String, String)> {
     let mut out = std::collections::BTreeSet::new();
     let Some(t) = text.and_then(|b| std::str::from_utf8(b).ok()) else { return out };
     for tok in t.split_whitespace() {
         let mut ch = tok.chars();
         let Some(c) = ch.next() else { continue };
-        if !"+=?!~&^".contains(c) { continue; }
-        if let Some((ty, id)) = ch.as_str().split_once(':') { out.insert((ty.to_string(), id.to_string())); }
+        if !"+=?!~&^@".contains(c) { continue; }
+        if let Some((ty, id)) = ch.as_str().split_once(':') {
+            let id = if c == '@' { id.rsplit_once(':').map(|(i, _)| i).unwrap_or(id) } else { id };
+            out.insert((ty.to_string(), id.to_string()));
+        }
     }
     out
+}
+
+/// Oracle shared by the engines `cache` (C01) and `own` (C13), from the statements: *between two removals every
+/// successful load / get_cached / get_or_insert of the same id and type yields the very same handle* — also the
+/// handles given to loaders (`types::SEEN_LOG`) — *the entry never changes afterwards* (outside reload passes), and
+/// *a value is never dropped while a handle can still reach it*.
+#[derive(Default)]
+pub struct SeenTracker {
+    /// key ↦ (address of the handle, canonical value, ledger uid) at its first observation since the key's last removal
+    known: BTreeMap<(String, String), (usize, String, Option<u64>)>,
+}
+
+impl SeenTracker {
+    pub fn begin() -> SeenTracker {
+        seen_log().clear();
+        LOG_SEEN.store(true, std::sync::atomic::Ordering::Relaxed);
+        SeenTracker::default()
+    }
+
+    /// the (type, id) pairs loaders filled / looked up with `get_or_insert` during the last operation (not drained)
+    pub fn goi_targets() -> Vec<(String, String)> { seen_log().iter().filter(|s| s.how == "goi").map(|s| (s.ty.clone(), s.id.clone())).collect() }
+
+    /// the (type, id) pairs for which a loader obtained a handle from `get_or_insert` or from a successful nested `load` during
+    /// the last operation (not drained): entries that such calls create are theirs, not the enclosing operation's
+    pub fn loader_obtained() -> Vec<(String, String)> { seen_log().iter().filter(|s| s.how != "cached").map(|s| (s.ty.clone(), s.id.clone())).collect() }
+
+    /// To be called after every operation. `line` = the operation; returns the oracle failures (class token first).
+    pub fn after_op(&mut self, wx: &WorldExec, line: &str, snap: &BTreeMap<(String, String), (String, usize)>) -> Vec<String> {
+        let mut fails = vec![];
+        let op = line.split_whitespace().next().unwrap_or("");
+        let log: Vec<Seen> = std::mem::take(&mut *seen_log());
+        // a reload pass legitimately rewrites values (new uid, new canonical value; same handle): start afresh
+        let pass = matches!(op, "reload" | "notify" | "enhance");
+        if pass { self.known.clear(); }
+        let mut obs: Vec<((String, String), &'static str, usize, String, Option<u64>)> = vec![];
+        if !pass { for s in &log { obs.push(((s.ty.clone(), s.id.clone()), s.how, s.addr, s.val.clone(), s.uid)); } }
+        let dropped: std::collections::BTreeSet<u64> = ledger().dropped.iter().copied().collect();
+        // entries that left the map (remove / take / clear) are forgotten; what is stored now is one more observation
+        self.known.retain(|k, _| snap.contains_key(k) || obs.iter().any(|o| &o.0 == k));
+        for (k, (v, p)) in snap { obs.push((k.clone(), "top-level", *p, v.clone(), wx.peek_uid(&k.0, &k.1))); }
+        for (k, how, addr, val, uid) in obs {
+            match self.known.get(&k) {
+                None => { self.known.insert(k, (addr, val, uid)); }
+                Some((a0, v0, u0)) => {
+                    if *a0 != addr { fails.push(format!("handle-unstable `{line}`: {}/{} was handed out at entry #{a0:x} and, without any removal, is at #{addr:x} ({how})", k.0, hexs(&k.1))); }
+                    if *v0 != val || *u0 != uid { fails.push(format!("entry-replaced `{line}`: {}/{} held {v0} (value uid {u0:?}) and, without any removal or reload, holds {val} (uid {uid:?}) ({how})", k.0, hexs(&k.1))); }
+                    if let Some(u) = u0 { if *u0 != uid && dropped.contains(u) { fails.push(format!("dropped-while-reachable `{line}`: the value {v0} (uid {u}) of {}/{} was dropped although handles on its entry were given out and the key was never removed", k.0, hexs(&k.1))); } }
+                    if *a0 != addr || *v0 != val || *u0 != uid { self.known.insert(k, (addr, val, uid)); }
+                }
+            }
+        }
+        // C13: a value seen in a live entry is not dropped while the entry is stored
+        for (k, (_, v, u)) in &self.known {
+            if let Some(u) = u { if dropped.contains(u) && snap.contains_key(k) { fails.push(format!("dropped-while-reachable `{line}`: the value {v} (uid {u}) of the stored entry {}/{} has been dropped", k.0, hexs(&k.1))); } }
+        }
+        fails
+    }
 }
 
 pub const ALL_TYPES: &[&str] = &["S0", "S1", "S2", "N0", "AN", "AS", "I", "M00", "M01", "M10", "M11", "M20", "M21", "M30", "M31", "M40", "M41", "M50", "M51",
@@ -211,6 +271,12 @@ impl WorldExec {
         with_storable!(ty, T => c.get_cached::<T>(id).map(|h| (h.read().canon(), h as *const _ as usize)), else None)
     }
 
+    /// ledger identity of the value stored under a key (tracked types only)
+    pub fn peek_uid(&self, ty: &str, id: &str) -> Option<u64> {
+        let c = self.any();
+        with_storable!(ty, T => c.get_cached::<T>(id).and_then(|h| h.read().uid()), else None)
+    }
+
     pub fn contains(&self, ty: &str, id: &str) -> bool {
         macro_rules! go { ($c:expr) => { with_storable!(ty, T => $c.contains::<T>(id), else false) } }
         if self.via_any { let c = self.any(); go!(c) } else { match &self.fe { Fe::Shared(c) => go!(c), Fe::Local(c) => go!(c) } }
@@ -275,7 +341,16 @@ impl WorldExec {
         match w[0] {
             "src.put" if w.len() >= 4 => {
                 let variant = w.get(4).and_then(|v| v.parse::<u8>().ok()).unwrap_or(0);
-                self.src.put(&s(1), &s(2), FileSt::Bytes(unhex(w[3]).into(), variant));
+                let bytes = unhex(w[3]);
+                // ids a script may fill with `get_or_insert` (`@T:id:n`) belong to the observed universe even if no top-level
+                // operation ever names them
+                if s(2) == "s" {
+                    if let Ok(t) = std::str::from_utf8(&bytes) {
+                        let ids: Vec<String> = t.split_whitespace().filter(|k| k.starts_with('@')).filter_map(|k| { let mut it = k[1..].split(':'); it.next()?; it.next().map(|i| i.to_string()) }).collect();
+                        for i in ids { self.note_id(&i); }
+                    }
+                }
+                self.src.put(&s(1), &s(2), FileSt::Bytes(bytes.into(), variant));
                 "ok".into()
             }
             "src.bad" if w.len() == 4 => { self.src.put(&s(1), &s(2), FileSt::Unreadable(w[3].to_string())); "ok".into() }
